@@ -69,6 +69,21 @@ Checks that were strengthened because a seeded change (or the triage of one) sho
   stream API (repeated part headers, file extraction, userinfo/IPv6 targets, empty parameter names, first-line folding,
   decompressor restarts, wrapped list growth, LZMA dictionary growth). C01-4 (one byte past a heap block handed to body
   callbacks) was caught only by the valgrind memcheck stage, not by ASan, at the quick tier.
+* **Round 5** (19 more, the sub-agents now told to look for clauses, configurations and API calls the existing changes do not
+  touch; 8 not caught at first): **C01-5** (endless loop in a NUL-skipping search) was *found* by the hostile run but reported as
+  inconclusive, because the valgrind stage that follows died on the same hang and its failure took precedence - that stage is
+  now restartable and crash-aware, and three watchdog hits per shard end the shard; **C03-5** (response-side bomb check made
+  chunking dependent) - C03 had no content-coded bodies at all; adding them exposed the same defect on the *request* side of the
+  unchanged tree (repaired, section 6.1); **C07-5** (`lzma_layers = 0` ignored for single-token headers and requests) - cases
+  with zero LZMA layers configured; **C08-5** (request parser made tolerant of blank chunk-size lines without releasing them) -
+  request-side twins of all response-side chunk-line families; **C15-5** (parameters decoded per the connection's, not the
+  transaction's, configuration) - en_c15 got an end-to-end body path through the stream API in which every second run installs
+  the decoder settings with `htp_tx_set_config()` on a connection configured differently; **C16-5** (response side yields at the
+  end of *any* response while the request side is suspended) - 0..2 ordinary exchanges in front of the CONNECT; **C17-5** (case
+  fold wrong only for `[`/`{`) - all 65536 byte pairs through the compare/prefix families; **C19-5** (extracted file's descriptor
+  closed twice, hitting another connection's file) - extracted files are hashed into the dump, two C19 profiles extract uploads
+  to disk, and the harness keeps descriptor accounting (`mkstemp`/`close` renamed like the allocator: closing a descriptor the
+  library does not hold, or leaking one, is a C01 verdict).
 * **C08-1/2, C19-1/2** were the acceptance tests of the two checks built last; C19-1 (a process-wide decompression buffer) is
   invisible to ThreadSanitizer because zlib does the writes, and is caught by the solo-vs-shared dump comparison under baton
   interleavings; C19-2 (self-organising best-fit map) is caught by the deep configuration hash and by TSan.
